@@ -209,7 +209,7 @@ def runtime_checks():
                     bad.append(dict(case='mismatch-accepted', outputs=k_net, conditions=k_cond, shape=list(out.shape)))
                 elif tuple(out.shape) != (3, k_cond):
                     bad.append(dict(case='wrong-shape', outputs=k_net, shape=list(out.shape)))
-            except ValueError:
+            except (ValueError, AssertionError):        # "rejected": the kind of error is not part of the property
                 if k_net == k_cond:
                     bad.append(dict(case='match-rejected', outputs=k_net))
     # ith_unit: exactly one column comes back, for every unit index (0 included) and every overriding enforce()
@@ -247,7 +247,7 @@ def runtime_checks():
         try:
             out = ens.enforce(FCNN(1, wider, hidden_units=(3,)), tt)
             bad.append(dict(case='mismatch-accepted on a later use of the same ensemble object', outputs=wider, conditions=2, shape=list(out.shape)))
-        except ValueError:
+        except (ValueError, AssertionError):
             pass
     # a condition bound to one unit and later re-bound to another (the same conditions reused for a second single-network solve)
     import warnings as _w
@@ -382,7 +382,7 @@ def runtime_checks():
     code = ("import warnings; warnings.simplefilter('ignore'); import torch\n"
             "from neurodiffeq.conditions import EnsembleCondition, IVP\nfrom neurodiffeq.networks import FCNN\n"
             "try:\n    out = EnsembleCondition(IVP(0., 1.), IVP(0., 2.)).enforce(FCNN(1, 3, hidden_units=(3,)), torch.rand(4, 1))\n    print('ACCEPTED', tuple(out.shape))\n"
-            "except ValueError:\n    print('REJECTED')\n")
+            "except (ValueError, AssertionError):\n    print('REJECTED')\n")
     try:
         r = subprocess.run([_sys.executable, '-O', '-W', 'ignore', '-c', code], capture_output=True, text=True, timeout=300, env=dict(_os.environ))
         if 'REJECTED' not in r.stdout:
